@@ -45,8 +45,6 @@ TOpts(nu, v, os) == IF os = <<>> THEN "T"
 TAtom(nu, v, a) ==
   IF a.lit.t # v.t THEN "U"
   ELSE IF a.lit.t = "num" /\ ~UnitOK(a.lit, nu) THEN "U"
-  \* a number without unit compared with a dimensional node: only zero means the same in every unit
-  ELSE IF a.lit.t = "num" /\ a.lit.u = "" /\ nu # "" /\ a.lit.n[1] # 0 THEN "U"
   ELSE IAtom(nu, v, a)
 TCond(nu, v, c) ==
   IF c.opaque # "" THEN "U"
